@@ -7,7 +7,8 @@
  *
  * POST condition true  => assemble() runs first; the skip runs iff it returned 2 (.else reached)
  *      condition false => the skip runs first; assemble() runs iff the skip stopped at .else
- *      an error from the condition, from the nested assemble() or from the skip is returned (-1)
+ *      the block must end at its own .endif: assemble() == 4 / ifdef_ignore() == 0; anything else (error,
+ *      end of input, .endr, a second .else) is returned as -1
  *      ifdef_count is restored; parsing_ifdef is reset
  */
 #include "stub_ctx.h"
@@ -71,14 +72,14 @@ static void post(AsmContext &ctx, int r, int cond_true, int cond_error, int coun
     OBL(g_asm_calls == 1, "C10.if: a true condition assembles its branch exactly once");
     OBL(g_first_tok_time == 0 || g_first_tok_time > g_asm_time, "C10.if: a true condition skips nothing before assembling its branch");
     OBL((g_ntok > 0) == (g_asm_ret == 2), "C10.if: the remainder is skipped iff the taken branch ended at .else");
-    OBL((r == -1) == (g_asm_ret == -1 || (g_asm_ret == 2 && g_stream == 0)), "C10.if: errors of the taken branch and an unterminated skip are returned");
+    OBL((r == 0) == (g_asm_ret == 4 || (g_asm_ret == 2 && g_stream == 1)), "C10.if: a taken block succeeds only if it ends at its own .endif (directly, or after skipping the .else part); errors, end of input, a stray .endr or a second .else are returned as failure");
   }
   else
   {
     OBL(g_ntok > 0, "C10.if: a false condition skips its branch first");
     OBL(g_asm_calls == (g_stream == 2 ? 1 : 0), "C10.if: the alternative is assembled iff the skip stopped at .else");
     if (g_asm_calls == 1) OBL(g_asm_time > g_first_tok_time, "C10.if: the alternative is assembled after the skip");
-    OBL((r == -1) == (g_stream == 0 || (g_stream == 2 && g_asm_ret == -1)), "C10.if: an unterminated skip and errors of the alternative are returned");
+    OBL((r == 0) == (g_stream == 1 || (g_stream == 2 && g_asm_ret == 4)), "C10.if: an untaken block succeeds only if the skip ends at its .endif, or at .else followed by an alternative that ends at the .endif");
   }
   OBL(r == 0 || r == -1, "C10.if: result code is 0 or -1");
 }
@@ -88,7 +89,7 @@ static void setup(AsmContext &ctx)
   ctx.ifdef_count = nondet_int(); ASSUME(ctx.ifdef_count >= 0 && ctx.ifdef_count < 1000);
   ctx.parsing_ifdef = 0; ctx.tokens.line = 1; ctx.tokens.filename = "x.asm";
   g_ntok = 0; g_clock = 0; g_asm_calls = 0; g_asm_time = 0; g_first_tok_time = 0; g_errors = 0; g_parsing_seen = 0; g_name_pending = 0;
-  g_asm_ret = nondet_int(); ASSUME(g_asm_ret == 0 || g_asm_ret == 2 || g_asm_ret == 3 || g_asm_ret == -1);
+  g_asm_ret = nondet_int(); ASSUME(g_asm_ret == 0 || g_asm_ret == 2 || g_asm_ret == 3 || g_asm_ret == 4 || g_asm_ret == -1);
   g_stream = nondet_int(); ASSUME(g_stream >= 0 && g_stream <= 2);
   g_expr = nondet_int();
   g_defined_macro = nondet_int() & 1; g_defined_sym = nondet_int() & 1;
